@@ -231,6 +231,11 @@ def retainedFlags (kind : ExtKind) (bs : List (Bounds α)) : List Bool :=
       (!equalFixed || j < i)
     !dominated
 
+/-- fix 46b0121: an operand whose evaluation may fail is never pruned (lowering it is what reports the error):
+retained iff not dominated or `may_be_undefined`. -/
+def retainedFlagsE (kind : ExtKind) (es : List (Exp α)) (bs : List (Bounds α)) : List Bool :=
+  List.zipWith (fun f e => f || Exp.mayBeUndefined e) (retainedFlags kind bs) es
+
 def selectFlagged {β : Type} : List β → List Bool → List β
   | x :: xs, f :: fs => if f then x :: selectFlagged xs fs else selectFlagged xs fs
   | _, _ => []
@@ -396,7 +401,7 @@ def linExtreme (kind : ExtKind) (es : List (Exp α)) (req : Req) : M α (Ctx α)
   if es.isEmpty then fail (.emptyAggregation kind.name) else
   let s ← get
   let obs := boundsOfList s.bounds es
-  let flags := retainedFlags kind obs
+  let flags := retainedFlagsE kind es obs
   let nRet := (flags.filter id).length
   if nRet == 0 then fail (.emptyAggregation kind.name)
   else if nRet == 1 then linFirstFlagged es flags req
